@@ -285,7 +285,7 @@ theorem larva_uses_light_at_depth [HasNarrow α] (c : LarvaCfg α) (temp salt bu
       clipDepth c.minDepth c.maxDepth (p.z + narrow (narrow
         (larvaSwim c.swimSpeed c.desired (l0 * exp (-c.k * p.z)) (larvaWeight c.initWeight temp c.dt p.weight))
           * narrow c.dt)) := by
-  unfold larvaUpdate Gen.light_at_depth
+  unfold larvaUpdate larvaFinalZ Gen.light_at_depth
   simp [not_le.mpr h]
 
 /-- salmon lice: up (negative velocity) in light when the water is salty enough … -/
